@@ -921,18 +921,33 @@ static void do_scan(char** tk, int ntk)
     // memory of a small idle helper process (started once, killed at exit); the buffer slot is ignored
     if (helper_pid <= 0)
     {
+      // the parent must not look at the child before it has exec'ed: until then the child is a copy of this
+      // (sanitized) process with terabytes of readable shadow mappings, and scanning those takes hours.  A close-on-exec
+      // pipe tells the parent when the exec has happened (read returns 0), however loaded the machine is.
+      int sync_pipe[2];
+      if (pipe2(sync_pipe, O_CLOEXEC) != 0)
+        die("pipe helper");
       helper_pid = fork();
       if (helper_pid == 0)
       {
         char* const argv[] = {(char*) "sleep", (char*) "100000", NULL};
-        for (int fd = 3; fd < 256; fd++) close(fd);
+        for (int fd = 3; fd < 256; fd++)
+          if (fd != sync_pipe[1])
+            close(fd);
         prctl(PR_SET_PDEATHSIG, SIGKILL);
         execv("/bin/sleep", argv);
         _exit(127);
       }
       if (helper_pid < 0)
         die("fork helper");
-      usleep(50000);
+      close(sync_pipe[1]);
+      {
+        char ch;
+        while (read(sync_pipe[0], &ch, 1) < 0 && errno == EINTR)
+          ;
+      }
+      close(sync_pipe[0]);
+      usleep(20000);
     }
     if (is_scanner)
       API(rc = yr_scanner_scan_proc(sc, helper_pid));
